@@ -237,3 +237,79 @@ def evaluate_multinet(ctx):
     for k in range(1, 5):
         r = npmodel.call(None, "all", [bs[:k]], {}, 0, None)
         ctx.ob("np.all-is-conjunction/%d" % k, "lemma", [], B(r) == z3.And(*bs[:k]))
+
+
+# ---------------------------------------------------------------------------------------------
+# _evaluate_multinet evaluated from the source over two consecutive levels (history of calls)
+
+class _LevelOrder:
+    """stands for np.array(levelorder): only passed around and indexed"""
+
+    def __init__(self, tag):
+        self.tag = tag
+
+    def getitem(self, ev, idx, lineno):
+        return _LevelOrder((self.tag, "sel"))
+
+
+@unit("C20", "evaluate_multinet_levels", functions=[RC + ":_evaluate_multinet"], engine="E1")
+def evaluate_multinet_levels(ctx):
+    """Each call (= one controller level) must determine the affected nets from THAT level's
+    controllers, re-run exactly those, and report the conjunction of the flags the nets have
+    AFTER the re-run."""
+    ctx.assume("A4", "A6")
+    names = ["net_a", "net_b", "net_c"]
+    rel_calls, eval_calls = [], []
+    fresh_flags = {}
+
+    def c_relevant(ev, args, kwargs):
+        lo = args[1]
+        rel_calls.append(getattr(lo, "tag", lo))
+        lvl = getattr(lo, "tag", None)
+        # level 1 touches net_a and net_b, level 2 touches net_c only
+        return {"net_a": lvl == "L1", "net_b": lvl == "L1", "net_c": lvl == "L2"}
+
+    class EvalNet:
+        def call(self, ev, args, kwargs, lineno):
+            net = args[0]
+            nm = net.name
+            k = (nm, len([c for c in eval_calls if c[0] == nm]))
+            eval_calls.append((nm, getattr(args[1], "tag", None)))
+            b = z3.Bool("converged_%s_run%d" % k)
+            fresh_flags[k] = b
+            return {"converged": b}
+
+    def np_array_hook(module, name):
+        if name == "_evaluate_net":
+            return EvalNet()
+        return None
+    nets = {nm: K.NetObj({}, name=nm) for nm in names}
+    multinet = K.NetObj({"nets": nets})
+    ctrl = {"nets": {nm: {"converged": z3.Bool("converged_%s_before" % nm)} for nm in names}}
+    e = E.Evaluator(contracts={RC + ":_relevant_nets": c_relevant}, hooks={"global": np_array_hook})
+    fref = S.get_function(RC + ":_evaluate_multinet")
+    ctx.use_function(fref)
+    results = []
+    for lvl in ("L1", "L2"):
+        paths = e.run_all(fref, lambda: ([multinet, _LevelOrder(lvl), ctrl], {}))
+        ok = len(paths) == 1 and paths[0].exc is None
+        ctx.decided("level-%s/single-path" % lvl, "cover", ok, witness=str([str(p.exc) for p in paths]))
+        if not ok:
+            return
+        results.append(paths[0].result)
+        want_rel = {"L1": ["net_a", "net_b"], "L2": ["net_c"]}[lvl]
+        ran = [nm for nm, _ in eval_calls]
+        del eval_calls[:]
+        ctx.decided("level-%s/affected-nets-from-this-level" % lvl, "ensures",
+                    rel_calls[-1:] == [lvl], witness="_relevant_nets consulted with %s" % rel_calls)
+        ctx.decided("level-%s/reruns-exactly-the-affected-nets" % lvl, "ensures", sorted(ran) == want_rel,
+                    witness="re-ran %s, affected %s" % (sorted(ran), want_rel))
+        cur = {nm: ctrl["nets"][nm]["converged"] for nm in names}
+        res = paths[0].result
+        ctx.ob("level-%s/reports-conjunction-of-current-flags" % lvl, "ensures", [],
+               B(res["converged"]) == z3.And(*[B(cur[nm]) for nm in names]))
+        for nm in want_rel:
+            last = [b for (n2, _), b in fresh_flags.items() if n2 == nm][-1:]
+            ctx.decided("level-%s/flag-of-%s-is-the-rerun-result" % (lvl, nm), "ensures",
+                        bool(last) and is_z3(cur[nm]) and cur[nm].eq(last[0]),
+                        witness="flag %s" % cur[nm])
